@@ -315,6 +315,7 @@ class Env(object):
         self.check_c06 = False
         self.flush_snapshots = []
         self.keep = []         # futures kept alive for the whole case
+        self.cwc_seen = {}     # cid -> the exception call_with_context's context was told about at exit
         self.gens = {}         # (tid, gid) -> async generator object iterated by hand
         self.tool_uid = 0      # items created inside library-tool bodies get negative uids
         self.dd_inside = {}    # deduplicated tool bodies: key -> the body is re-entering itself right now
@@ -575,37 +576,45 @@ def _count(env, tool, k):
     env.tool_runs[(tool, k)] = env.tool_runs.get((tool, k), 0) + 1
 
 
-@_tools.deduplicate()
-@A()
-def t_dd(env, k, kind):
-    if env.dd_inside.get(k):
-        return ["dd-inner", k]          # the private task of a call made from inside the running body
-    _count(env, "dd", k)
-    mode = k % 4
-    if mode == 3:
-        raise env.exc(("dd", k))
-    inner = None
-    if mode == 1:
-        env.dd_inside[k] = True
-        try:
-            inner = t_dd.asynq(env, k, kind).value()
-        finally:
-            env.dd_inside[k] = False
-    elif mode == 2:
-        try:
-            yield ErrorFuture(env.exc(("dd-dep", k)))
-        except HExc:
+def _make_dd(tag, holder):
+    """two deduplicated functions with one module, name and qualified name (closures of one factory)"""
+    @_tools.deduplicate()
+    @A()
+    def t_dd(env, k, kind):
+        if env.dd_inside.get(k):
+            return [tag + "-inner", k]          # the private task of a call made from inside the running body
+        _count(env, tag, k)
+        mode = k % 4
+        if mode == 3:
+            raise env.exc((tag, k))
+        inner = None
+        if mode == 1:
             env.dd_inside[k] = True
             try:
                 inner = t_dd.asynq(env, k, kind).value()
-            except BaseException as e:
-                inner = ["inner-raised", type(e).__name__]
             finally:
                 env.dd_inside[k] = False
-        if k >= 4:
-            return ["dd", k, None, inner]
-    v = yield _titem(env, kind, k)
-    return ["dd", k, shape(v), inner]
+        elif mode == 2:
+            try:
+                yield ErrorFuture(env.exc(("dd-dep", k)))
+            except HExc:
+                env.dd_inside[k] = True
+                try:
+                    inner = t_dd.asynq(env, k, kind).value()
+                except BaseException as e:
+                    inner = ["inner-raised", type(e).__name__]
+                finally:
+                    env.dd_inside[k] = False
+            if k >= 4:
+                return [tag, k, None, inner]
+        v = yield _titem(env, kind, k)
+        return [tag, k, shape(v), inner]
+    return t_dd
+
+
+_DD = {}
+_DD[0] = t_dd = _make_dd("dd", _DD)
+_DD[1] = _make_dd("dd-twin", _DD)
 
 
 @_tools.alru_cache(maxsize=32)
@@ -613,6 +622,8 @@ def t_dd(env, k, kind):
 def t_alru(env, k, kind):
     _count(env, "alru", k)
     v = yield _titem(env, kind, k)
+    if k % 2:
+        yield _titem(env, kind, k + 100)       # a second, sequentially dependent request
     return ["alru", k, shape(v)]
 
 
@@ -671,13 +682,28 @@ t_retry = _tools.aretry(HRetry, max_tries=2, sleep=0)(A()(_retry_body))
 @A()
 def t_plain(env, k, kind):
     v = yield _titem(env, kind, k)
+    if k % 4 >= 2:
+        raise env.exc(("cwc", k))
     return ["plain", k, shape(v)]
+
+
+class CwcCtx(RecCtx):
+    """the context handed to call_with_context: records what its __exit__ is told; for k % 4 == 3 it suppresses the failure"""
+
+    def __init__(self, env, cid, k):
+        RecCtx.__init__(self, env, cid, None)
+        self.k = k
+
+    def __exit__(self, typ, val, tb):
+        self.env.cwc_seen[self.cid] = val
+        RecCtx.__exit__(self, typ, val, tb)
+        return self.k % 4 == 3 and typ is not None
 
 
 def build_tool(env, s):
     name = s[1]
     if name == "dd":
-        return t_dd.asynq(env, s[2], s[3])
+        return _DD[s[4] if len(s) > 4 else 0].asynq(env, s[2], s[3])
     if name == "alru":
         return t_alru.asynq(env, s[2], s[3])
     if name == "agen":
@@ -694,7 +720,7 @@ def build_tool(env, s):
     if name == "retry":
         return t_retry.asynq(env, s[2], s[3])
     if name == "cwc":
-        return _tools.call_with_context.asynq(RecCtx(env, s[4], None), t_plain, env, s[2], s[3])
+        return _tools.call_with_context.asynq(CwcCtx(env, s[4], s[2]), t_plain, env, s[2], s[3])
     raise AssertionError("unknown tool %r" % (name,))
 
 
